@@ -20,7 +20,7 @@ WTESTS = {"groups": ['descriptor_format'], "tests": ['tests/utils', 'tests/decay
 REQUIRED = {"nesting-depth>=3": 50, "reused-object-sequentially": 50, "reentrant-object": 50, "object-created-before-set_config": 50,
             "leave-by-exception-at-depth>=2": 50, "enter-invalid-context": 50, "render": 500,
             "valid-pattern-with-repeated-placeholder": 20,
-            **{f"invalid:{k}": 20 for k in ("missing-mother", "missing-daughters", "extra-named", "positional", "attribute", "index", "nested-in-spec", "second-only", "repeated-mother-no-daughters", "repeated-daughters-no-mother", "repeat-inside-spec-no-daughters")},
+            **{f"invalid:{k}": 20 for k in ("missing-mother", "missing-daughters", "extra-named", "positional", "attribute", "index", "nested-in-spec", "second-only", "repeated-mother-no-daughters", "repeated-daughters-no-mother", "repeat-inside-spec-no-daughters", "blank-in-name", "blank-in-name-second", "tab-in-name")},
             "C14.exit.restores_entry_format": 500, "C14.set_config.rejected_leaves_format": 500}
 EXHAUSTIVE_NOTE = "every well-nested history over the reduced alphabet {N,E,F,L,X,V,I,B,R} of length exactly L (7 quick, 8 thorough) -- all shorter ones are prefixes"
 ASSUMPTIONS = ["only with-shaped (well-nested) enter/leave sequences, as `with` can produce", "process-wide format is reset to the default between histories"]
@@ -47,6 +47,10 @@ INVALID = {
     "repeated-mother-no-daughters": ("{mother} -> {mother}", DEFAULT[1]),
     "repeated-daughters-no-mother": (DEFAULT[0], "({daughters} {daughters})"),
     "repeat-inside-spec-no-daughters": ("{mother:>{mother}} x", DEFAULT[1]),
+    # a blank inside the braces makes another field name (str.format would look up 'mother ')
+    "blank-in-name": ("{mother } -> {daughters}", DEFAULT[1]),
+    "blank-in-name-second": (DEFAULT[0], "[{mother} -> { daughters}]"),
+    "tab-in-name": ("{mother} -> {daughters\t}", DEFAULT[1]),
 }
 INV_KEYS = list(INVALID)
 
